@@ -181,8 +181,9 @@ class Identifier(Node):
             str (CSS)
         """
         name = (',' + fills['nl']).join(
-            re.sub(r'\?(.)\?',
-                   lambda m: fills['ws'] + m.group(1) + fills['ws'],
+            re.sub(r'(\[[^\]]*\])|\?(.)\?',
+                   lambda m: m.group(1) or
+                   fills['ws'] + m.group(2) + fills['ws'],
                    ''.join(p).strip()) for p in self.parsed)
         # collapse double blanks, but leave attribute selectors ([...]) as written
         return re.sub(r'(\[[^\]]*\])|  ', lambda m: m.group(1) or ' ', name)
